@@ -312,4 +312,18 @@ theorem time_partial_ok (d : Deb) (c : TimeCfg) (nO nH nF : Int) (tO tH tF : Opt
     | none => rfl
     | some x => exact (h3 hc x rfl).symm
 
+/-- **Accepted through every dispatch path.**  Serial and parallel dispatch of both `apply` methods allocate the result on
+    the documented time axis (obs for DeltaChange, cm_future for the other seven) — so three *different* time lengths fit in
+    either mode (order facts regenerated from the AST; exhaustive over the eight debiasers). -/
+theorem dispatch_output_axis : ∀ d ∈ Deb.all, dispatchAxesOk Gen.Contract.applyShapes d = true := by
+  rw [Lemmas.GenContract.applyShapes]; decide
+
+/-- the result of an accepted call has the time length of that series, whatever the other two lengths are -/
+theorem output_shape_axis (d : Deb) (x : Inputs) (t1 t2 t3 : Nat) (h : WellFormed x) :
+    outputShape d (withTime x.1 t1, withTime x.2.1 t2, withTime x.2.2 t3) =
+      (match outputAxis d with | .obs => t1 | .cmHist => t2 | _ => t3) :: x.1.spatial := by
+  obtain ⟨o, hh, f⟩ := x
+  obtain ⟨_, e1, e2⟩ := h
+  cases d <;> simp [outputShape, outputAxis, getArg, withTime, InputDesc.spatial] <;> simp_all [InputDesc.spatial]
+
 end Props.C14
